@@ -186,7 +186,7 @@ def _eigen(cls, **extra):
 
 
 def _specials_e():
-    return [1, 0, 2, -1, Fraction(1, 2), Fraction(-1, 2), 3]
+    return [1, 0, 2, -1, Fraction(1, 2), Fraction(-1, 2), 3, 5, -3, 4]
 
 
 def _specials_s():
